@@ -6,6 +6,8 @@ import Ark.Props.C16World
 import Ark.Proofs.GenBridge.BookPool
 import Ark.Proofs.GenBridge.BookArchetype
 import Ark.Proofs.GenBridge.BookCache
+import Ark.Props.C16Hist
+import Ark.Props.C16Register
 
 namespace Ark.Props.C16
 open Ark
@@ -111,5 +113,38 @@ theorem src_pool_reset' : type_of% @Ark.GenBridge.Book.entityPool_reset_eq := @A
 
 /-- `cache.Reset` as in the source = the model's: nothing to do when no filter is registered, otherwise entries, index map and ID pool are dropped -/
 theorem src_cache_reset : type_of% @Ark.GenBridge.Book.cache_reset_eq := @Ark.GenBridge.Book.cache_reset_eq
+
+
+/-! ### After Reset every history has the same outcome as on a new world (Props/C16Hist, C16Register) -/
+
+/-- **C16, second sentence**: for every history `pre` and every later history `post` (registrations and further resets anywhere), running `post` after `pre ++ [reset]` and after the registrations of `pre` alone on a NEW world (any capacities) give the same trace: the same expressibility, accept/reject decision, panic class and returned handle for every operation -/
+theorem hist_same_trace : type_of% @Ark.Props.C16Hist.same_trace := @Ark.Props.C16Hist.same_trace
+
+/-- … and the two machine states are in simulation after every prefix of `post` (equal specification, issued handles, registry, pool core) -/
+theorem hist_same_state_after_every_prefix : type_of% @Ark.Props.C16Hist.same_state_after_every_prefix := @Ark.Props.C16Hist.same_state_after_every_prefix
+
+/-- … hence the two model worlds agree on the free list, the next handle, `compsOf`/`valOf` of every ID and `alive` of every issued handle -/
+theorem hist_same_worlds : type_of% @Ark.Props.C16Hist.same_worlds := @Ark.Props.C16Hist.same_worlds
+
+/-- … and queries (uncached or through a cache entry registered on both sides) visit the same set of entities with the same values -/
+theorem hist_same_cached_queries : type_of% @Ark.Props.C16Hist.same_cached_queries := @Ark.Props.C16Hist.same_cached_queries
+
+/-- the outcome of a call (returned handle or panic class) is a function of the specification and the next pool handle -/
+theorem hist_outcome_from_spec : type_of% @Ark.Props.C16Hist.outcome_from_spec := @Ark.Props.C16Hist.outcome_from_spec
+
+/-- the simulation relation is preserved by every step -/
+theorem hist_sim_is_a_simulation : type_of% @Ark.Props.C16Hist.sim_is_a_simulation := @Ark.Props.C16Hist.sim_is_a_simulation
+
+/-- finding: on a forged handle with generation `MaxUint32` the two worlds may answer `Alive` differently (no issued handle has that generation) -/
+theorem hist_forged_sentinel_handle_differs : type_of% @Ark.Props.C16Hist.forged_sentinel_handle_differs := @Ark.Props.C16Hist.forged_sentinel_handle_differs
+
+/-- after Reset every filter object is unregistered and can be registered again (full model, with relations) -/
+theorem rereg_filters_can_be_registered_again : type_of% @Ark.Props.C16Register.filters_can_be_registered_again := @Ark.Props.C16Register.filters_can_be_registered_again
+
+/-- after Reset every observer object is unregistered and registers again exactly when it passed the checks before -/
+theorem rereg_observers_can_be_registered_again : type_of% @Ark.Props.C16Register.observers_can_be_registered_again := @Ark.Props.C16Register.observers_can_be_registered_again
+
+/-- finding (model level): a filter whose first relation names a non-column of a kept relation archetype panics before and after Reset but not on a new world; not constructible through the typed API -/
+theorem rereg_bogus_relation_filter : type_of% @Ark.Props.C16Register.bogus_relation_filter := @Ark.Props.C16Register.bogus_relation_filter
 
 end Ark.Props.C16
